@@ -13,7 +13,7 @@ def run(sid):
     return (p.stdout.strip().splitlines() or [p.stderr.strip()[-200:]])[-1]
 
 
-with ThreadPoolExecutor(max_workers=6) as ex:
+with ThreadPoolExecutor(max_workers=10) as ex:
     for line in ex.map(run, ids):
         print(line)
 
